@@ -39,6 +39,11 @@ def cat(w, z):
     v = str(w) + str(z) + str(w)
     LOG.append(("cat", [str(w), str(z)], v))
     return v
+def pair():
+    import random
+    v = random.choice(["12!", "31!"])
+    LOG.append(("pair", (), v))
+    return v
 '''
 
 
@@ -106,6 +111,15 @@ def catalog() -> dict:
                        generators={"<c>": "const()", "<p>": "pick()"}, prelude=GEN_PRELUDE),
         cons=[Atom('str({0}) == str({1})', (Sym("<c>"), Sym("<t>")), cmp=True), Atom('{0} == {1}', (Sym("<p>"), Sym("<t>")), cmp=True)],
         gens={"<c>": ("const", lambda a: "12"), "<p>": ("pick", None)},
+    )
+    # an equality between two nodes of the SAME symbol, one of them inside generator output (the repair copies that node)
+    c["generators_inner_eq"] = dict(
+        ref=RefGrammar({"<start>": Seq((NT("<plain>"), Lit(";"), NT("<g>"))), "<plain>": NT("<item>"), "<g>": Seq((NT("<item>"), Lit("!"))),
+                        "<item>": Rep(NT("<d>"), 2, 2), "<d>": D},
+                       generators={"<g>": "pair()"}, prelude=GEN_PRELUDE),
+        cons=[Atom('{0} == {1}', (Child(Sym("<plain>"), "<item>"), Child(Sym("<g>"), "<item>")), cmp=True),
+              Atom('str({0}) != "12"', (Child(Sym("<g>"), "<item>"),), cmp=True)],
+        gens={"<g>": ("pair", None)},
     )
     for name, e in c.items():
         e["name"] = name
@@ -386,6 +400,22 @@ def loop_explore(ctx: Ctx, names: list, which: set, bound: int, cap: int) -> dic
 
 
 # ----------------------------------------------------------------------------- engine B: operator closure
+def state_key(t: Any) -> str:
+    """identity of a tree as a STATE of the operator closure: structure plus what the operators read besides it
+    (read-only marks, generator sources).  Two trees with equal structure but different marks have different futures."""
+    flags = []
+
+    def walk(n: Any) -> None:
+        flags.append(bool(n.read_only))
+        for c in n._children:
+            walk(c)
+        for c in n._sources:
+            flags.append(("src", repr(snap(c))))
+
+    walk(t)
+    return repr((snap(t), tuple(flags)))
+
+
 def _node_ids(t: Any) -> set:
     out = {id(t)}
     for c in t._children:
@@ -484,9 +514,10 @@ def closure_work(task: tuple) -> dict:
             if shared and res is not base and res is not part:
                 out["viol"].append(("C10", dict(basecase, kind="result_shares_nodes_with_input", shared=len(shared), sig=f"closure:{op}:result_shares_nodes_with_input")))
         s = snap(res)
-        if s in seen:
+        sk = state_key(res)
+        if sk in seen:
             continue
-        seen.add(s)
+        seen.add(sk)
         if "C01" in which:
             why = judge_derivation(e, res)
             if why:
@@ -526,7 +557,7 @@ def closure_work(task: tuple) -> dict:
                 out["viol"].append(("C16", dict(basecase, kind="operator_broke_generated_field", why=why, tree=str(res)[:80],
                                                field_taken_from_equality_partner=_is_partner_value(e, res, why),
                                                sig=f"closure:{name}:{op}:{why[:50]}")))
-        out["new"].append((repr(s), (op, choices, builder, partner)))
+        out["new"].append((sk, (op, choices, builder, partner)))
     return out
 
 
@@ -548,7 +579,7 @@ def closure_explore(ctx: Ctx, names: list, which: set, depth: int, frontier_cap:
                 break
             if isinstance(t, tuple):
                 continue
-            k = repr(snap(t))
+            k = state_key(t)
             if k not in init:
                 init[k] = ("fuzz", choices)
         seeds = list(init.items())[: frontier_cap]
